@@ -7,7 +7,7 @@ import core, lib, lockorder
 from props import shared
 from core import call_matches, call_names, op_place, op_local, backward_slice
 
-LEVEL = 'proof'
+LEVEL = 'other'
 FLOOR = 40
 EXPLANATION = ('Wake-up pairing as must-pass obligations on the success paths of every producing function; the throttling predicates of waiter and '
                'waker are complementary comparisons against the same constant; the WaitCondvar flag is only touched under its mutex and waited for '
@@ -27,6 +27,7 @@ def sites_on(b, pats, field):
 
 
 def run(ctx):
+    shared.no_mutual_deferral(ctx, '9')        # ... and shutdown terminates: no pair of commits that defer each other forever
     shared.more_work_signal(ctx, '8')      # every accepted commit is written to the log: the log worker keeps going while a commit is (re)queued
     F = ctx.F
     # ---------------------------------------------------------------- 1. wake-up pairing
@@ -89,11 +90,24 @@ def run(ctx):
             ok = w in el.reaches(w)
             ctx.ob('1l cleanup-wait-in-loop', 'K3-loop-exit', el.path, 'the wait for log cleanup re-checks its condition in a loop', ok, '')
             lib.cond_guarded(ctx, '1m cleanup-wait-condition', el, w, 'the wait depends on the number of dirty logs', calls=['log::Log::num_dirty_logs'])
+            # only the cleanup worker ends this wait; once shutdown has begun it exits (and kill_logs runs enact_logs after all workers
+            # were joined): the loop must look at the shutdown flag on every trip
+            shl = [bi for bi, t in el.calls() if call_matches(t, lib.ATOMIC_LOAD) and '.DbInner.shutdown' in lib.receiver_fields(el, t, 0)]
+            cyc = el.find_path(list(el.succ(w)), {w}, removed=set(shl)) if w in el.reaches(w) else None
+            first = el.find_path([0], {w}, removed=set(shl))
+            ctx.ob('1m2 cleanup-wait-gives-up-on-shutdown', 'K3-loop-exit', el.path,
+                   'the wait for log cleanup is entered and re-entered only after reading the shutdown flag (nobody cleans logs for a stage that runs during or after shutdown)',
+                   bool(shl) and cyc is None and first is None, 'no read of DbInner.shutdown in enact_logs' if not shl else 'the wait can be (re)entered without looking at shutdown', el.loc(w))
     sh = ctx.body('db::DbInner::shutdown')
     if sh:
         st = [bi for bi, t in sh.calls() if call_matches(t, lib.ATOMIC_STORE) and '.DbInner.shutdown' in lib.receiver_fields(sh, t, 0)]
         ctx.ob('1n shutdown-sets-flag', 'anchor', sh.path, 'shutdown stores the flag', len(st) == 1, '')
-        for fld in ('.DbInner.flush_worker_wait', '.DbInner.log_worker_wait', '.DbInner.commit_worker_wait', '.DbInner.cleanup_worker_wait'):
+        # every wake-up flag of DbInner that some stage or worker waits on (discovered from the struct, not listed by hand)
+        wflds = ['.DbInner.' + f['name'] for f in F.adts.get('db::DbInner', {'variants': [{'fields': []}]})['variants'][0]['fields']
+                 if 'WaitCondvar<bool>' in str(f.get('ty', ''))]
+        waited = [fld for fld in wflds if any(sites_on(b2, WAIT, fld) for b2 in F.bodies.values())]
+        ctx.ob('1o0 wake-up-flags', 'anchor', sh.path, 'the wake-up flags of DbInner that are waited on were found (four workers + the cleanup throttle)', len(waited) >= 5, str(waited))
+        for fld in waited:
             sg = sites_on(sh, SIGNAL, fld)
             lib.must_pass(ctx, '1o shutdown-wakes %s' % fld, sh, sg, 'shutdown signals %s' % fld, cut_errors=False)
             lib.precedes(ctx, '1p flag-before-wake %s' % fld, sh, st, sg, 'the shutdown flag is set before the worker is woken (else it re-sleeps)')
